@@ -62,3 +62,54 @@ def search(seed, tier, obligation, hints):
 def replay(inp):
     why = CHECKS[inp["function"]][1](inp["cfg"])
     return {"violated": bool(why), "clause": why}
+
+
+# ----------------------------------------------------------------------------- count / inclusive range expansion (C18) on the real runner
+def expansion_cfg(kind, spec):
+    m = {"class": "Market", "tickSize": 1.0, "marketPrice": 100.0}
+    a = {"class": "FCNAgent", "markets": ["M"], "assetVolume": 10, "cashAmount": 1000, "fundamentalWeight": {"expon": [1.0]}, "chartWeight": {"expon": [0.0]},
+         "noiseWeight": {"expon": [1.0]}, "meanReversionTime": {"uniform": [50, 100]}, "noiseScale": 0.001, "timeWindowSize": [10, 20], "orderMargin": [0.0, 0.1]}
+    (m if kind == "markets" else a).update(spec)
+    return {"simulation": {"markets": ["M"], "agents": ["A"], "sessions": [{"sessionName": 0, "iterationSteps": 1, "withOrderPlacement": False, "withOrderExecution": False, "withPrint": False}]},
+            "M": m, "A": a}
+
+
+def check_expansion(case):
+    import contextlib, io, random as _r
+    from pams.runners import SequentialRunner
+    kind, spec = case["kind"], case["spec"]
+    cfg = expansion_cfg(kind, spec)
+    if "from" in spec:
+        want = list(range(spec["from"], spec["to"] + 1))
+    else:
+        want = list(range(spec.get("numMarkets" if kind == "markets" else "numAgents", 1)))
+    r = SequentialRunner(settings=cfg, prng=_r.Random(1))
+    try:
+        with contextlib.redirect_stdout(io.StringIO()):
+            r._setup()
+    except Exception as e:      # noqa
+        return f"{kind} {spec}: setup failed with {type(e).__name__}: {e} (expected {len(want)} entities)"
+    ents = r.simulator.markets if kind == "markets" else r.simulator.agents
+    if len(ents) != len(want):
+        return f"{kind} {spec}: {len(ents)} entities created, expected {len(want)}"
+    ids = [(e.market_id if kind == "markets" else e.agent_id) for e in ents]
+    if ids != list(range(len(want))):
+        return f"{kind} {spec}: ids {ids} are not unique consecutive"
+    names = [e.name for e in ents]
+    if len(set(names)) != len(names):
+        return f"{kind} {spec}: names {names} are not unique"
+    return None
+
+
+def expansion_cases():
+    for kind, ck in (("markets", "numMarkets"), ("agents", "numAgents")):
+        yield {"kind": kind, "spec": {}}
+        for n in (1, 2, 3):
+            yield {"kind": kind, "spec": {ck: n}}
+        for lo in (0, 3):
+            for ln in (1, 2, 3, 4):
+                yield {"kind": kind, "spec": {"from": lo, "to": lo + ln - 1}}
+
+
+CHECKS["SequentialRunner._generate_markets[count-range-names]"] = (lambda: (c for c in expansion_cases() if c["kind"] == "markets"), check_expansion)
+CHECKS["SequentialRunner._generate_agents[count-range-names]"] = (lambda: (c for c in expansion_cases() if c["kind"] == "agents"), check_expansion)
